@@ -328,9 +328,7 @@ class CInference(Inference):
         logger.debug("translate called")
         eta = {
             i: Symbol(f"eta_{i}", INT)
-            for i, _ in enumerate(
-                self.epistemic_state["belief_base"].conditionals, start=1
-            )
+            for i in self.epistemic_state["belief_base"].conditionals
         }
         # defeat= = checkTautologies(self.epistemic_state['belief_base'].conditionals)
         # if not defeat: return False
@@ -590,7 +588,7 @@ class CInference(Inference):
 
         vSum = makeSummation({0: vMin})
         fSum = makeSummation({0: fMin})
-        mv, mf = freshVars(0)
+        mv, mf = freshVars("query")
         vM = minima_encoding(mv, vSum[0])
         fM = minima_encoding(mf, fSum[0])
         # print(f"vM {vM}")
